@@ -23,7 +23,7 @@ from itertools import product
 from pathlib import Path
 
 sys.path.insert(0, str(Path(__file__).resolve().parent.parent))
-from harness.common import (Run, Disagreement, cli, DriverError)  # noqa: E402
+from harness.common import (Run, Disagreement, cli, DriverError, LEAN)  # noqa: E402
 
 PROP = 'C09'
 SITE1 = 'elementpath/xpath1/_xpath1_functions.py'
@@ -57,6 +57,8 @@ OPS = {
     'hstarts': ("starts-with($a0,$a1,'%s')" % 'HTML', 'SS', V2, False, 'elementpath/collations.py CollationManager.startswith'),
     'hends': ("ends-with($a0,$a1,'%s')" % 'HTML', 'SS', V2, False, 'elementpath/collations.py CollationManager.endswith'),
     'hcompare': ("compare($a0,$a1,'%s')" % 'HTML', 'SS', V2, False, 'elementpath/collations.py html_ascii_strcoll'),
+    'ctoken': ('contains-token($a1,$a0)', 'ST', 3, False, 'elementpath/xpath31/_xpath31_functions.py evaluate__contains_token'),
+    'hctoken': ("contains-token($a1,$a0,'HTML')", 'ST', 3, False, 'elementpath/xpath31/_xpath31_functions.py evaluate__contains_token'),
     'encode': ('encode-for-uri($a0)', 'S', V2, False, SITE2 + ' evaluate__encode_for_uri'),
     'iri': ('iri-to-uri($a0)', 'S', V2, False, SITE2 + ' evaluate__iri_to_uri'),
     'html': ('escape-html-uri($a0)', 'S', V2, False, SITE2 + ' evaluate__escape_html_uri'),
@@ -92,6 +94,8 @@ def env():
 # ------------------------------------------------------------------------------ values
 def s_of(cps):
     """Python value of a string argument; the empty sequence is passed as []"""
+    if isinstance(cps, str):
+        return cps
     return [] if cps is None else ''.join(chr(c) for c in cps)
 
 
@@ -120,14 +124,61 @@ def fnum(x: float):
     return ('f', x.hex() if math.isfinite(x) else ('nan' if math.isnan(x) else ('inf' if x > 0 else '-inf')))
 
 
+def numarg_value(n):
+    """Python value of a conv number: ('F', hex) float, ('I', str) int, ('D', str) Decimal, ('B', 0/1) bool"""
+    k, v = n
+    if k == 'F':
+        return float.fromhex(v) if v not in ('nan', 'inf', '-inf') else float(v)
+    if k == 'I':
+        return int(v)
+    if k == 'D':
+        return Decimal(v)
+    return bool(v)
+
+
+def numarg_line(n) -> str:
+    """what the Lean side gets: for a float the sign, the shortest round-trip digits and the position of the
+    decimal point, all read off repr(x) (CPython's dtoa is the trusted source of the digits)"""
+    k, _ = n
+    x = numarg_value(n)
+    if k == 'B':
+        return f'B;{int(x)}'
+    if k == 'I':
+        return f'I;{x}'
+    if k == 'D':
+        sign, digits, exp = x.as_tuple()
+        return f'D;{sign};{" ".join(map(str, digits))};{exp}'
+    if math.isnan(x):
+        return 'F;nan'
+    if math.isinf(x):
+        return 'F;inf' if x > 0 else 'F;-inf'
+    sign, digits, exp = Decimal(repr(x)).as_tuple()
+    digits = list(digits)
+    while len(digits) > 1 and digits[-1] == 0:
+        digits.pop()
+        exp += 1
+    if digits == [0]:
+        return f'F;{sign};0;1'
+    return f'F;{sign};{" ".join(map(str, digits))};{len(digits) + exp}'
+
+
 def cps_line(cps) -> str:
     """a string as code points; None = the empty sequence"""
+    if isinstance(cps, str):
+        return cps           # '@': the position of the converted number in a conv case
     return '-' if cps is None else ' '.join(str(c) for c in cps)
 
 
 def case_line(case, compat: bool = False) -> str:
     """driver request; compat = the XPath 1.0 reading (XPath1Parser: compatibility_mode is True)"""
     op, args = case['op'], case['args']
+    if op == 'conv':
+        head = 'conv|' + numarg_line(case['num'])
+        if case['inner'] is None:
+            return head
+        return head + '|' + case_line({'op': case['inner'], 'args': args}, compat)
+    if op in ('ctoken', 'hctoken'):
+        return '|'.join(['ctoken', 'h' if op == 'hctoken' else 'c', cps_line(args[0])] + [cps_line(x) for x in args[1]])
     kinds = OPS[op][1]
     out = [op + '1' if (compat and op == 'translate') else op]
     for k, a in zip(kinds, args):
@@ -141,13 +192,7 @@ def case_line(case, compat: bool = False) -> str:
         elif k == 'T':
             out.extend(cps_line(x) for x in a)
     if op in ('upper', 'lower'):
-        chars = sorted(set(args[0] or []))
-        f = str.upper if op == 'upper' else str.lower
-        out.append(','.join(f'{c}:{cps_line([ord(x) for x in f(chr(c))])}' for c in chars))
-        if op == 'lower':
-            cased, ign = case_props(chars)
-            out.append(cps_line(cased))
-            out.append(cps_line(ign))
+        out[0] = op + 'G'       # the driver uses the generated whole-range tables
     return '|'.join(out)
 
 
@@ -192,6 +237,14 @@ def canon(v) -> str:
 
 def expr_of(case) -> tuple[str, dict]:
     op, args = case['op'], case['args']
+    if op == 'conv':
+        if case['inner'] is None:
+            return 'string($a0)', {'a0': numarg_value(case['num'])}
+        ie, ivar = expr_of({'op': case['inner'], 'args': args})
+        for k_, v_ in list(ivar.items()):
+            if isinstance(v_, str) and v_ == '@':
+                ivar[k_] = numarg_value(case['num'])
+        return ie, ivar
     e, kinds = OPS[op][0], OPS[op][1]
     if op == 'concat':
         items = args[0]
@@ -210,18 +263,42 @@ def expr_of(case) -> tuple[str, dict]:
     return e, var
 
 
+def node_roots(cps):
+    """two element trees whose string value / attribute value is the given string (built in memory, no parser:
+    no line-end normalisation, any code point): <a>S1<b>S2</b>S3</a> and <a x="S"/>"""
+    import xml.etree.ElementTree as ET
+    t = ''.join(chr(c) for c in cps)
+    i, j = len(t) // 3, 2 * len(t) // 3
+    a = ET.Element('a')
+    a.text = t[:i]
+    b = ET.SubElement(a, 'b')
+    b.text = t[i:j]
+    b.tail = t[j:]
+    a2 = ET.Element('a')
+    a2.set('x', t)
+    return a, a2
+
+
+NODE_OPS = ('substring2', 'substring3', 'before', 'after', 'contains', 'starts', 'ends', 'translate', 'normalize',
+            'length', 'compare', 'cpequal', 's2cp', 'upper', 'lower', 'encode', 'iri', 'html',
+            'hbefore', 'hafter', 'hcontains', 'hstarts', 'hends', 'hcompare')
+
+
 def variants(case, pidx: int):
     """the expressions through which the case is evaluated by parser `pidx`: the function call with
-    all arguments as variables, plus (where they exist) the operator / short forms / literal forms"""
+    all arguments as variables, plus (where they exist) the operator / short forms / literal forms /
+    node-argument and context-item forms.  Items: (expression, variables, form name, root or None)"""
     e, var = expr_of(case)
-    out = [(e, var, 'call')]
+    out = [(e, var, 'call', None)]
     op, args = case['op'], case['args']
+    if op == 'conv':
+        return out
     if op == 'concat' and pidx >= 2:
-        out.append((' || '.join(f'$a{i}' for i in range(len(args[0]))), var, 'operator-||'))
+        out.append((' || '.join(f'$a{i}' for i in range(len(args[0]))), var, 'operator-||', None))
     if op == 'join' and pidx >= 2 and args[0] == []:
-        out.append(('string-join($a1)', var, 'string-join/1'))
+        out.append(('string-join($a1)', var, 'string-join/1', None))
     if op in ('before', 'after', 'contains', 'starts', 'ends', 'compare') and pidx >= 1:
-        out.append((e[:-1] + f",'{CP_URI}')", var, 'collation-argument'))
+        out.append((e[:-1] + f",'{CP_URI}')", var, 'collation-argument', None))
     if op in ('substring2', 'substring3'):
         lits = []
         for n in args[1:]:
@@ -230,16 +307,26 @@ def variants(case, pidx: int):
                 if abs(x) < 1e6 and x * 4 == int(x * 4) and str(x) != '-0.0':
                     lits.append(repr(x))        # exact both as xs:decimal (2.0+) and as a 1.0 number
         if len(lits) == len(args) - 1:
-            out.append(('substring($a0,' + ','.join(lits) + ')', {'a0': var['a0']}, 'literal-numbers'))
+            out.append(('substring($a0,' + ','.join(lits) + ')', {'a0': var['a0']}, 'literal-numbers', None))
+    if op in NODE_OPS and isinstance(args[0], list) and case.get('nodeforms'):
+        elem, attr = node_roots(args[0])
+        rest = {k: v for k, v in var.items() if k != 'a0'}
+        out.append((e.replace('$a0', '.'), rest, 'node-argument', elem))
+        out.append((e.replace('$a0', '@x'), rest, 'attribute-argument', attr))
+        if op == 'length':
+            out.append(('string-length()', {}, 'context-item', elem))
+        if op == 'normalize':
+            out.append(('normalize-space()', {}, 'context-item', elem))
     return out
 
 
-def run_impl(case, pidx: int, e=None, var=None) -> str:
+def run_impl(case, pidx: int, e=None, var=None, root=None) -> str:
     E = env()
     if e is None:
         e, var = expr_of(case)
     try:
-        return canon(E['ep'].select(E['root'], e, parser=E['parsers'][pidx], variables=var))
+        return canon(E['ep'].select(E['root'] if root is None else root, e, parser=E['parsers'][pidx],
+                                    variables=var))
     except Exception as ex:  # every exception is part of the observed behaviour
         code = getattr(ex, 'code', None)
         from elementpath.exceptions import ElementPathError
@@ -248,10 +335,44 @@ def run_impl(case, pidx: int, e=None, var=None) -> str:
         return f'ERR:OTHER:{type(ex).__name__}'
 
 
+LXML_SHAPES: dict = {}
+
+
+def lxml_number_ok(n) -> bool:
+    """libxml2 prints numbers with at most 15 significant digits and switches to exponent notation outside
+    [1e-5, 1e9) (xmlXPathFormatNumber), which XPath 1.0 does not allow: it is an oracle for the conversion
+    only inside that window (and for integers that fit 32 bits, booleans, zero)."""
+    k, _ = n
+    x = numarg_value(n)
+    if k == 'B':
+        return True
+    if k == 'I':
+        return abs(x) < 2 ** 31
+    if k == 'D':
+        if not x.is_finite() or len(x.as_tuple().digits) > 15:
+            return False
+        x = float(x)
+        if Fraction(x) != Fraction(numarg_value(n)):
+            return False
+    if math.isnan(x) or math.isinf(x):
+        return True       # libxml2: NaN, Infinity, -Infinity as in XPath 1.0
+    if x == 0:
+        return True
+    fr = Fraction(x)
+    # libxml2 prints a fixed number of fraction digits (not the shortest distinguishing digits): only values
+    # with a short exact decimal expansion (dyadic, denominator <= 1024) are printed as XPath 1.0 prescribes
+    return 1e-5 <= abs(x) < 1e9 and fr.denominator <= 1024 and len(str(abs(fr.numerator))) <= 9
+
+
 def run_lxml(case):
     """libxml2's answer in canonical text, or None when lxml cannot take the input"""
     E = env()
-    if E['le'] is None or not OPS[case['op']][3]:
+    if E['le'] is None:
+        return None
+    if case['op'] == 'conv':
+        if not lxml_number_ok(case['num']) or (case['inner'] is not None and not OPS[case['inner']][3]):
+            return None
+    elif not OPS[case['op']][3]:
         return None
     e, var = expr_of(case)
     lv = {}
@@ -260,7 +381,7 @@ def run_lxml(case):
             lv[k] = v
         elif isinstance(v, list) and not v:
             lv[k] = []           # empty node-set: its string value is ''
-        elif isinstance(v, float):
+        elif isinstance(v, (float, bool)):
             lv[k] = v
         elif isinstance(v, (int, Decimal)) and not isinstance(v, bool):
             try:
@@ -279,6 +400,7 @@ def run_lxml(case):
         r = x(E['lroot'], **lv)
     except Exception:
         return None   # control characters, surrogates, NUL: not XML-compatible for lxml
+    LXML_SHAPES[e] = LXML_SHAPES.get(e, 0) + 1
     if isinstance(r, bool):
         return canon(r)
     if isinstance(r, float):
@@ -313,6 +435,8 @@ def gen_alpha(rng, op):
         pools += [WS, WS, WS_OTHER]
     if op.startswith('h') and op != 'html':
         pools = [HTMLY, HTMLY, HTMLY, ASCII, ASTRAL]
+    if op == 'ctoken':
+        pools = [ASCII, ASCII, ASCII, ASTRAL, COMBINING, HTMLY]
     if rng.random() < 0.08:
         pools = pools + [NONXML]
     k = rng.choice([1, 2, 2, 3, 3, 4, 6])
@@ -370,16 +494,90 @@ def gen_num(rng, n, wide=True):
     return fnum(rng.uniform(-3, n + 3))
 
 
+def gen_numarg(rng):
+    r = rng.random()
+    if r < 0.08:
+        return ('B', rng.randrange(2))
+    if r < 0.22:
+        return ('I', str(rng.choice([0, 1, -1, 7, -42, 100, 12345, 10 ** 15, -10 ** 20, 2 ** 63, rng.randint(-10 ** 6, 10 ** 6)])))
+    if r < 0.40:
+        q = rng.choice(['1.50', '-0.0', '0.000', '1E+3', '1E-10', '100', '-12.3400', '0.1', '123456789012345678901234567890.5',
+                        '-0.00000000000000000001', '5E+1', '1.0', '-7', '000.5', '2.50', '1E+20', '0E+3', '-0E-5'])
+        if rng.random() < 0.5:
+            q = str(Decimal(rng.randint(-10 ** rng.randint(1, 12), 10 ** rng.randint(1, 12))).scaleb(rng.randint(-15, 6)))
+        return ('D', q)
+    # floats
+    r = rng.random()
+    if r < 0.12:
+        x = rng.choice([float('nan'), float('inf'), float('-inf'), -0.0, 0.0])
+    elif r < 0.30:
+        x = rng.choice([1, -1, 1.5, 2.5, -3.75, 9.999]) * 10.0 ** rng.randint(-12, 24)
+    elif r < 0.45:
+        x = rng.randint(-10 ** 6, 10 ** 6) / rng.choice([1, 2, 4, 8, 10, 100, 1000, 3, 7])
+    elif r < 0.55:
+        x = rng.choice([1e15, 1e16, 9999999999999998.0, 1e-4, 0.0001, 9.999e-5, 1e-5, 123456789012345680.0, 2.0 ** 53,
+                        5e-324, 1.7976931348623157e308, 0.1, 1 / 3, 2 / 3, 1e21, 1e22, 123456.789, 0.30000000000000004,
+                        4.35, 0.5, 100.0, 1e9, 999999999.9, 1e-6])
+    elif r < 0.75:
+        x = round(rng.uniform(-1000, 1000), rng.randint(0, 6))
+    else:
+        import struct
+        x = struct.unpack('<d', struct.pack('<Q', rng.getrandbits(64)))[0]
+        if math.isnan(x):
+            x = float('nan')
+    x = float(x)
+    return ('F', x.hex() if math.isfinite(x) else ('nan' if math.isnan(x) else ('inf' if x > 0 else '-inf')))
+
+
+def gen_conv(rng):
+    num = gen_numarg(rng)
+    dot, minus, digits = [46], [45], [49, 50, 48]
+    inner = rng.choice([None, None, 'concat', 'length', 'substring2', 'contains', 'starts', 'before', 'after',
+                        'translate', 'normalize', 'concat'])
+    if inner is None:
+        args = []
+    elif inner == 'concat':
+        items = [rng.choice([[], [124], S('x')]), '@', rng.choice([[], [124]])]
+        args = [items]
+    elif inner in ('length', 'normalize'):
+        args = ['@']
+    elif inner == 'substring2':
+        args = ['@', fnum(rng.choice([1.0, 2.0, 2.5, 0.0, 3.0]))]
+    elif inner == 'translate':
+        args = ['@', rng.choice([dot, minus + dot, S('E-')]), rng.choice([[], S('!'), S(',~')])]
+    else:
+        args = ['@', rng.choice([dot, minus, digits[:1], S('E'), S('e'), S('.0'), S('Inf'), []])]
+    return {'op': 'conv', 'num': num, 'inner': inner, 'args': args}
+
+
 WEIGHTS = {'substring2': 10, 'substring3': 16, 'before': 6, 'after': 6, 'contains': 5, 'starts': 4, 'ends': 4,
            'translate': 10, 'normalize': 8, 'length': 2, 'concat': 3, 'join': 3, 'compare': 5, 'cpequal': 3,
            's2cp': 2, 'cp2s': 4, 'upper': 4, 'lower': 5, 'encode': 3, 'iri': 3, 'html': 3,
-           'hbefore': 3, 'hafter': 3, 'hcontains': 2, 'hstarts': 2, 'hends': 2, 'hcompare': 4}
+           'hbefore': 3, 'hafter': 3, 'hcontains': 2, 'hstarts': 2, 'hends': 2, 'hcompare': 4,
+           'ctoken': 4, 'hctoken': 2}
 
 
 def gen_case(rng, ops=None):
+    if ops is None and rng.random() < 0.09:
+        return gen_conv(rng)
     ops = ops or ACTIVE_OPS
     op = rng.choices(ops, [WEIGHTS[o] for o in ops])[0]
     alpha = gen_alpha(rng, op)
+    if op in ('ctoken', 'hctoken'):
+        alpha = alpha + [32, 32, 9, 10, 13] + ([0xA0, 0x0C, 0x0B, 0x2003] if rng.random() < 0.3 else [])
+        inputs = [gen_str(rng, alpha, 10) for _ in range(rng.randint(0, 3))]
+        toks = [t for i in inputs for t in s_of(i).split()] if inputs else []
+        if toks and rng.random() < 0.7:
+            tok = [ord(c) for c in rng.choice(toks)]
+            if op == 'hctoken' and rng.random() < 0.6:
+                tok = [ord(chr(c).swapcase()) if len(chr(c).swapcase()) == 1 else c for c in tok]
+            if rng.random() < 0.2:
+                tok = tok[:-1]
+        else:
+            tok = gen_str(rng, alpha, 3)
+        pad = [[], [32], [9, 32], [0xA0], [10]]
+        tok = rng.choice(pad) + tok + rng.choice(pad) if rng.random() < 0.5 else tok
+        return {'op': op, 'args': [tok, inputs]}
     s = gen_str(rng, alpha)
     if op == 'substring2':
         args = [s, gen_num(rng, len(s))]
@@ -425,7 +623,10 @@ def gen_case(rng, ops=None):
             args[rng.choice(idx)] = None
         elif op == 'concat':
             args[0][rng.randrange(len(args[0]))] = None
-    return {'op': op, 'args': args}
+    case = {'op': op, 'args': args}
+    if op in NODE_OPS and isinstance(args[0], list) and rng.random() < 0.25:
+        case['nodeforms'] = True       # also evaluate with the first argument given as a node / the context item
+    return case
 
 
 def S(text: str):
@@ -480,6 +681,41 @@ CORPUS = [
     {'op': 'hcontains', 'args': [S('K'), S('k')]},
     {'op': 'hends', 'args': [S('abC'), S('c')]},
     {'op': 'hstarts', 'args': [S('é'), S('É')]},
+    # contains-token (F09h: only XML whitespace separates / is trimmed)
+    {'op': 'ctoken', 'args': [S(' red '), [S('red green blue')]]},
+    {'op': 'ctoken', 'args': [S('red'), [S('red, green, blue')]]},
+    {'op': 'ctoken', 'args': [S('\xa0a'), [S('a')]]},
+    {'op': 'ctoken', 'args': [S('a'), [S('a\x0cb')]]},
+    {'op': 'ctoken', 'args': [S('a'), [S('b\xa0a')]]},
+    {'op': 'ctoken', 'args': [[], [S('a b')]]},
+    {'op': 'ctoken', 'args': [S('a'), []]},
+    {'op': 'hctoken', 'args': [S('RED'), [S('red green blue')]]},
+    {'op': 'hctoken', 'args': [S('SS'), [S('ß')]]},
+    # non-string arguments (XPath 1.0 string() conversion; F09g: INF / exponent forms / -0 with the 1.0 parser)
+    {'op': 'conv', 'num': ('I', '12345'), 'inner': 'substring2', 'args': ['@', fnum(2.0)]},
+    {'op': 'conv', 'num': ('B', 1), 'inner': 'concat', 'args': [[S('1'), '@', []]]},
+    {'op': 'conv', 'num': ('F', (12.5).hex()), 'inner': 'before', 'args': ['@', S('.')]},
+    {'op': 'conv', 'num': ('F', 'inf'), 'inner': None, 'args': []},
+    {'op': 'conv', 'num': ('F', '-inf'), 'inner': 'length', 'args': ['@']},
+    {'op': 'conv', 'num': ('F', 'nan'), 'inner': None, 'args': []},
+    {'op': 'conv', 'num': ('F', (-0.0).hex()), 'inner': None, 'args': []},
+    {'op': 'conv', 'num': ('F', (1e16).hex()), 'inner': None, 'args': []},
+    {'op': 'conv', 'num': ('F', (1e15).hex()), 'inner': None, 'args': []},
+    {'op': 'conv', 'num': ('F', (1e-5).hex()), 'inner': None, 'args': []},
+    {'op': 'conv', 'num': ('F', (1e-4).hex()), 'inner': None, 'args': []},
+    {'op': 'conv', 'num': ('F', (1.5e20).hex()), 'inner': 'length', 'args': ['@']},
+    {'op': 'conv', 'num': ('F', (1 / 3).hex()), 'inner': None, 'args': []},
+    {'op': 'conv', 'num': ('F', (100.0).hex()), 'inner': None, 'args': []},
+    {'op': 'conv', 'num': ('D', '1.50'), 'inner': None, 'args': []},
+    {'op': 'conv', 'num': ('D', '-0.0'), 'inner': None, 'args': []},
+    {'op': 'conv', 'num': ('D', '1E+3'), 'inner': None, 'args': []},
+    {'op': 'conv', 'num': ('D', '1E-10'), 'inner': 'length', 'args': ['@']},
+    {'op': 'conv', 'num': ('I', '-7'), 'inner': 'starts', 'args': ['@', S('-')]},
+    # node arguments and the context item
+    {'op': 'length', 'args': [S('abc déf')], 'nodeforms': True},
+    {'op': 'normalize', 'args': [S('  a  b\t\n c ')], 'nodeforms': True},
+    {'op': 'substring3', 'args': [S('12345'), fnum(1.5), fnum(2.6)], 'nodeforms': True},
+    {'op': 'contains', 'args': [S('tattoo'), S('tt')], 'nodeforms': True},
     {'op': 'cp2s', 'args': [[65, 0]]},
     {'op': 'cp2s', 'args': [[0x2309, 0x1F600, 0xFFFD]]},
     {'op': 'cp2s', 'args': [[0xFFFE]]},
@@ -511,7 +747,7 @@ ACTIVE_OPS = list(OPS)
 
 # ----------------------------------------------------------------------- correspondence
 def nontrivial(case) -> bool:
-    return any(len(a) > 0 for a in case['args'] if isinstance(a, list))
+    return case['op'] == 'conv' or any(len(a) > 0 for a in case['args'] if isinstance(a, list))
 
 
 def has_empty_seq(case) -> bool:
@@ -520,6 +756,18 @@ def has_empty_seq(case) -> bool:
 
 def branch_of(case) -> str:
     op = case['op']
+    if op == 'conv':
+        k = case['num'][0]
+        cls = {'B': 'bool', 'I': 'int', 'D': 'decimal'}.get(k)
+        if cls is None:
+            x = numarg_value(case['num'])
+            if math.isnan(x) or math.isinf(x):
+                cls = 'float-special'
+            elif x == 0:
+                cls = 'float-zero'
+            else:
+                cls = 'float-exponent' if 'e' in repr(x) else ('float-integer' if x == int(x) else 'float-fraction')
+        return f'conv:{cls}:{case["inner"] or "string"}'
     if op.startswith('substring'):
         def cls(n):
             line = num_line(n)
@@ -545,7 +793,7 @@ def compare(run: Run, cases: list) -> None:
     st = run.stats
     for case, line, line1 in zip(cases, lines, lines1):
         op = case['op']
-        site = OPS[op][4]
+        site = OPS[op][4] if op != 'conv' else 'elementpath/xpath_tokens/base.py XPathToken.string_value'
         if '|' not in ans[line] or '|' not in ans[line1]:
             run.disagree(Disagreement(case, 'driver:' + ans[line] + ' ' + ans[line1], what='protocol'))
             continue
@@ -554,36 +802,58 @@ def compare(run: Run, cases: list) -> None:
         if has_empty_seq(case):
             st.count('arg:empty-sequence')
         lx = run_lxml(case)
-        for pidx in range(OPS[op][2], 4):
+        if op == 'conv':
+            isfloat = case['num'][0] == 'F'
+            pidxs = [0] if (isfloat or case['inner'] != 'concat') else [0, 1, 2, 3]
+            trig = ans[line1].split('|')[2] == '1'
+        else:
+            pidxs = range(OPS[op][2], 4)
+            trig = False
+        for pidx in pidxs:
             pname = E['parsers'][pidx].__name__
-            model, spec = ans[line1 if pidx == 0 else line].split('|')
-            for e, var, form in variants(case, pidx):
-                impl = run_impl(case, pidx, e, var)
+            model, spec = ans[line1 if pidx == 0 else line].split('|')[:2]
+            for e, var, form, root in variants(case, pidx):
+                impl = run_impl(case, pidx, e, var, root)
                 st.count('parser:' + pname)
                 if form != 'call':
                     st.count('form:' + form)
                 if impl.startswith('ERR'):
                     st.count('result:' + impl)
                 c = dict(case, parser=pname, expr=e)
+                tags = ['F09g'] if (trig and pidx == 0) else []
                 if impl != spec:
-                    run.disagree(Disagreement(c, impl, model, spec, what=f'{op}-vs-F&O', site=site, tags=[]))
-                elif impl != model:
-                    run.disagree(Disagreement(c, impl, model, spec, what=f'{op}-model', site=site))
+                    run.disagree(Disagreement(c, impl, model, spec, what=f'{op}-vs-F&O', site=site, tags=tags))
+                    if tags:
+                        st.count('finding:F09g')
+                if impl != model:
+                    if impl == spec or tags:
+                        run.disagree(Disagreement(c, impl, model, None if tags else spec, what=f'{op}-model', site=site))
                 if pidx == 0 and form == 'call' and lx is not None and impl == spec and lx != impl:
                     # implementation and spec agree with each other but not with libxml2
                     run.disagree(Disagreement(c, impl, model, lx, what=f'{op}-vs-libxml2', site=site,
                                               tags=[]))
         if lx is None:
-            st.count('libxml2:n/a' if OPS[op][3] else 'libxml2:not-1.0')
+            st.count('libxml2:n/a' if (op == 'conv' or OPS[op][3]) else 'libxml2:not-1.0')
         else:
             st.count('libxml2:compared')
             if lx != ans[line1].split('|')[1]:
                 st.count('libxml2:differs-from-spec')
+                run.disagree(SpecOracleDisagreement(dict(case, expr=expr_of(case)[0]), lx, None,
+                                                    ans[line1].split('|')[1], what='spec-vs-libxml2',
+                                                    site='EPV/Spec/FOStrings.lean'))
+
+
+class SpecOracleDisagreement(Disagreement):
+    """libxml2 disagrees with the *spec*: the oracle invalidates our reading (or is itself wrong); this is a
+    broken tie of the spec, reported as no-failing-input-found unless the implementation also fails"""
+    @property
+    def kind(self) -> str:
+        return 'tie'
 
 
 def correspond(run: Run) -> None:
     rng = run.rng
-    n = run.scale(30000, 400000)
+    n = run.scale(18000, 300000)
     cases = list(CORPUS) + [gen_case(rng) for _ in range(n)]
     run.stats.rule = ('one case = one function call (op, arguments); strings over small random alphabets drawn from '
                       'ASCII, XML and non-XML whitespace, astral, combining, BMP-edge, non-XML (NUL, surrogates) code '
@@ -648,7 +918,7 @@ def _still_fails(cands: list, what: str, parser: str) -> list:
 
 
 def shrink(d: Disagreement) -> Disagreement:
-    if not isinstance(d.case, dict) or 'op' not in d.case:
+    if not isinstance(d.case, dict) or 'op' not in d.case or d.case['op'] in ('conv', 'ctoken', 'hctoken'):
         return d
     best = d
     import time
@@ -693,6 +963,75 @@ def shrink(d: Disagreement) -> Disagreement:
     return best
 
 
+def translate_case_tables(run: Run) -> dict:
+    """Emit CPython's case mapping facts for the whole code point range into EPV/Gen/C09Case.lean:
+    the rows of str.upper()/str.lower() that differ from the identity, and the Cased / Case_Ignorable classes as
+    observed through the Final_Sigma behaviour of str.lower() (the only place CPython consults them)."""
+    import unicodedata
+    N = 0x110000
+    up, lo = [], []
+    for c in range(N):
+        ch = chr(c)
+        u, l = ch.upper(), ch.lower()
+        if u != ch:
+            up.append((c, [ord(x) for x in u]))
+        if l != ch:
+            lo.append((c, [ord(x) for x in l]))
+
+    def fin(s):
+        return s.lower().endswith('\u03c2')
+
+    def ranges(pred):
+        out, start = [], None
+        for c in range(N):
+            if pred(c):
+                if start is None:
+                    start = c
+            elif start is not None:
+                out.append((start, c - 1))
+                start = None
+        if start is not None:
+            out.append((start, N - 1))
+        return out
+
+    ign = [fin('a' + chr(c) + '\u03a3') and not fin('1' + chr(c) + '\u03a3') for c in range(N)]
+    # Cased is only ever consulted for a character that is not case-ignorable
+    cased = [(not ign[c]) and fin(chr(c) + '\u03a3') for c in range(N)]
+    ign_r, cased_r = ranges(lambda c: ign[c]), ranges(lambda c: cased[c])
+
+    def row(e):
+        return f'({e[0]}, [{", ".join(map(str, e[1]))}])'
+
+    def chunks(name, typ, items, fmt, size=400):
+        """long literal lists are emitted in chunks: one giant literal is slow to elaborate"""
+        parts = []
+        lines = []
+        for i in range(0, max(len(items), 1), size):
+            pn = f'{name}_{i // size}'
+            parts.append(pn)
+            lines.append(f'def {pn} : List ({typ}) := [' + ', '.join(fmt(x) for x in items[i:i + size]) + ']')
+        lines.append(f'def {name} : List ({typ}) := ' + ' ++ '.join(parts))
+        return lines
+
+    out = ['/- GENERATED by harness/c09.py::translate_case_tables from the running CPython -- do not edit -/',
+           'namespace EPV.Gen.C09', '',
+           f'def unidataVersion : String := "{unicodedata.unidata_version}"', '']
+    out += chunks('upperTable', 'Nat × List Nat', up, row)
+    out += chunks('lowerTable', 'Nat × List Nat', lo, row)
+    out += chunks('casedRanges', 'Nat × Nat', cased_r, lambda r: f'({r[0]}, {r[1]})')
+    out += chunks('ignorableRanges', 'Nat × Nat', ign_r, lambda r: f'({r[0]}, {r[1]})')
+    out += ['', 'end EPV.Gen.C09']
+    gen = LEAN / 'EPV' / 'Gen' / 'C09Case.lean'
+    gen.parent.mkdir(exist_ok=True)
+    text = '\n'.join(out) + '\n'
+    if not gen.exists() or gen.read_text() != text:
+        gen.write_text(text)
+    return {'unidata_version': unicodedata.unidata_version, 'upper_rows': len(up), 'lower_rows': len(lo),
+            'upper_rows_len_ne_1': sorted(c for c, v in up if len(v) != 1)[:200],
+            'lower_rows_len_ne_1': sorted(c for c, v in lo if len(v) != 1),
+            'cased_ranges': len(cased_r), 'case_ignorable_ranges': len(ign_r)}
+
+
 def body(run: Run) -> int:
     run.trusted_base += [
         'CPython str primitives as modelled in EPV/Model/Strings.lean (find, in, startswith, endswith, split, '
@@ -707,7 +1046,8 @@ def body(run: Run) -> int:
         'strings are shorter than 2^53 characters)',
         'only the Unicode code-point collation is modelled (locale collations: C19)',
         'arguments are already strings / numbers (atomization and string_value of other types: C10)']
-    run.prove(['EPV.Props.C09'], ['EPV.Model.Strings', 'EPV.Spec.FOStrings'])
+    run.stats.extra['case_tables'] = translate_case_tables(run)
+    run.prove(['EPV.Props.C09', 'EPV.Props.C09Tables'], ['EPV.Model.Strings', 'EPV.Spec.FOStrings', 'EPV.Gen.C09Case'])
     if getattr(run, 'replay', None):
         data = json.loads(Path(run.replay).read_text())
         fi = data.get('failing_input') or {}
@@ -719,8 +1059,13 @@ def body(run: Run) -> int:
         correspond(run)
     except DriverError as e:
         run.broken.append('driver:C09 ' + str(e)[:300])
+    run.stats.extra['libxml2_expression_shapes'] = dict(sorted(LXML_SHAPES.items()))
+    run.stats.extra['libxml2_note'] = ('every listed XPath 1.0 expression was evaluated by libxml2 (lxml.etree.XPath) '
+                                       'with the same variable values; results are compared with the Lean spec and '
+                                       'with XPath1Parser; inputs libxml2 cannot take (control characters, NUL, '
+                                       'surrogates, numbers outside its exact printing window) are counted as libxml2:n/a')
     return run.finish('proof', shrink=shrink, search=search)
 
 
 if __name__ == '__main__':
-    cli(PROP, body)
+    cli(PROP, body, translate=translate_case_tables)
